@@ -160,8 +160,14 @@ pub(crate) fn restart_all(sim: &mut Sim) {
         .map(|p| (p.id, p.chain, p.height))
         .collect();
     let mut grown: Vec<usize> = vec![];
+    // growth is only needed when the stored tip is not below the peers' tip (a peer whose tip
+    // equals the stored tip cannot be proven again until the chain grows)
+    let stored_tip = sim.c().tip_number();
     for (_, chain, height) in &ids {
-        if !grown.contains(chain) && *height == sim.world.chains[*chain].tip_number() {
+        if !grown.contains(chain)
+            && *height == sim.world.chains[*chain].tip_number()
+            && stored_tip >= *height
+        {
             sim.world.chains[*chain].miner_lock = Default::default();
             sim.world.chains[*chain].push(vec![]);
             grown.push(*chain);
@@ -395,4 +401,157 @@ pub(crate) fn user_set_scripts(
     };
     let _ = sim.c().rpc_filter().set_scripts(scripts, command);
     let _ = Bytes::new();
+}
+
+
+// ------------------------------------------------------------------------------------------
+// E-crash: the same run, but the process "dies" at the k-th storage write point
+// ------------------------------------------------------------------------------------------
+
+use std::sync::atomic::{AtomicI64, AtomicU64, Ordering};
+use std::sync::Arc;
+
+static WRITES_SEEN: AtomicU64 = AtomicU64::new(0);
+static CRASH_AT: AtomicI64 = AtomicI64::new(-1);
+pub(crate) const CRASH_MARK: &str = "VERIF-CRASH-INJECTED";
+
+pub(crate) fn install_crash_hook() {
+    crate::verif_hooks::set_point_hook(Some(Arc::new(|kind, _label, _probe| {
+        if kind == "write" {
+            let n = WRITES_SEEN.fetch_add(1, Ordering::SeqCst);
+            if CRASH_AT.load(Ordering::SeqCst) == n as i64 {
+                // the write does not happen: the process is gone
+                panic!("{}", CRASH_MARK);
+            }
+        }
+    })));
+}
+
+pub(crate) fn arm_crash(at: Option<u64>) {
+    WRITES_SEEN.store(0, Ordering::SeqCst);
+    CRASH_AT.store(at.map(|x| x as i64).unwrap_or(-1), Ordering::SeqCst);
+}
+
+pub(crate) fn disarm_crash() {
+    CRASH_AT.store(-1, Ordering::SeqCst);
+}
+
+pub(crate) fn writes_seen() -> u64 {
+    WRITES_SEEN.load(Ordering::SeqCst)
+}
+
+pub(crate) struct CrashOutcome {
+    pub run: RunOutcome,
+    /// write points passed before the history ended (crash-free) or before the crash
+    pub writes: u64,
+    pub crashed_at_step: Option<usize>,
+    /// the store could not be reopened / the start-up sequence panicked
+    pub reopen_panic: Option<PanicRec>,
+}
+
+/// Runs the scenario with the given deviations; if `crash_at` is Some(k) the k-th write point
+/// (counted from the first step, i.e. after `init`) unwinds, every in-memory object is dropped,
+/// the store is reopened with the normal start-up sequence, the peers reconnect (the world grows
+/// by one block) and the honest history continues to quiescence. With `crash_at` None the same
+/// restart is performed when the history is over (the crash-free reference).
+pub(crate) fn run_with_crash(
+    sc: &dyn Scenario,
+    devs: &[(usize, Dev)],
+    crash_at: Option<u64>,
+    count_init_writes: bool,
+) -> (Option<Sim>, CrashOutcome) {
+    install_crash_hook();
+    if count_init_writes {
+        arm_crash(crash_at);
+    } else {
+        arm_crash(None);
+    }
+    let mut sim = match panics::catch(|| sc.init(None)) {
+        Ok(sim) => sim,
+        Err(p) => {
+            disarm_crash();
+            return (
+                None,
+                CrashOutcome {
+                    run: RunOutcome { steps: 0, converged: false, panic: Some(p), applicable: vec![], trace: vec![] },
+                    writes: writes_seen(),
+                    crashed_at_step: Some(0),
+                    reopen_panic: None,
+                },
+            );
+        }
+    };
+    if !count_init_writes {
+        arm_crash(crash_at);
+    }
+    let map: BTreeMap<usize, &Dev> = devs.iter().map(|(s, d)| (*s, d)).collect();
+    let mut idle = 0usize;
+    let mut step = 0usize;
+    let mut converged = false;
+    let mut panic = None;
+    let mut crashed_at_step = None;
+    let mut reopen_panic = None;
+    let mut restarted = false;
+    let mut writes = 0u64;
+    let max = sc.max_steps();
+    while step < max {
+        let r = panics::catch(|| {
+            if let Some(d) = map.get(&step) {
+                apply_dev(sc, &mut sim, d);
+                idle = 0;
+                true
+            } else if default_step(&mut sim, &mut idle) {
+                true
+            } else if sc.on_quiescent(&mut sim) {
+                idle = 0;
+                true
+            } else {
+                false
+            }
+        });
+        let finished = match r {
+            Err(p) if p.msg.contains(CRASH_MARK) => {
+                crashed_at_step = Some(step);
+                writes = writes_seen();
+                true
+            }
+            Err(p) => {
+                panic = Some(p);
+                break;
+            }
+            Ok(false) => true,
+            Ok(true) => false,
+        };
+        if finished {
+            if restarted {
+                converged = true;
+                step += 1;
+                break;
+            }
+            if crashed_at_step.is_none() {
+                writes = writes_seen();
+            }
+            // process restart: drop everything, reopen, reconnect
+            disarm_crash();
+            restarted = true;
+            let r2 = panics::catch(|| restart_all(&mut sim));
+            if let Err(p) = r2 {
+                reopen_panic = Some(p);
+                break;
+            }
+            idle = 0;
+        }
+        step += 1;
+    }
+    disarm_crash();
+    let trace_lines = std::mem::take(&mut sim.trace);
+    (
+        Some(sim),
+        CrashOutcome {
+            run: RunOutcome { steps: step, converged, panic, applicable: vec![], trace: trace_lines },
+            writes,
+            crashed_at_step,
+            reopen_panic,
+        },
+    )
 }
